@@ -832,6 +832,12 @@ impl<F: Read + Write + Seek> CompoundFile<F> {
             Some(stream_id) => stream_id,
             None => not_found!("Parent storage doesn't exist"),
         };
+        if self.minialloc().dir_entry(parent_id).obj_type == ObjType::Stream {
+            invalid_input!(
+                "Parent is a stream, not a storage: {:?}",
+                internal::path::path_from_name_chain(&names)
+            );
+        }
         self.minialloc_mut().insert_dir_entry(
             parent_id,
             name,
@@ -1016,6 +1022,12 @@ impl<F: Read + Write + Seek> CompoundFile<F> {
             Some(stream_id) => stream_id,
             None => not_found!("Parent storage doesn't exist"),
         };
+        if self.minialloc().dir_entry(parent_id).obj_type == ObjType::Stream {
+            invalid_input!(
+                "Parent is a stream, not a storage: {:?}",
+                internal::path::path_from_name_chain(&names)
+            );
+        }
         let new_stream_id = self.minialloc_mut().insert_dir_entry(
             parent_id,
             name,
